@@ -1063,4 +1063,110 @@ Proof.
   change 0 with (fsum (@nil F)) at 1. rewrite map_nth. reflexivity.
 Qed.
 
+
+(* ---- restatements used by Props/C03.v ---- *)
+(* the model's pass agrees, on valid entries, with a pass whose last row holds arbitrary data *)
+Theorem vpass_last_row_irrelevant L pa pc twop v0 w (g : nat -> list F -> list F) a m c :
+  (forall m, m <= L -> length (nth m v0 []) = w) ->
+  (m + a <= L)%nat -> c < w ->
+  nth c (nth m (nth a (vpass K L pa pc twop v0) []) []) 0
+  = nth c (nth m (nth a (vpass_g L pa pc twop g v0) []) []) 0.
+Proof. intros Hw Hm Hc. rewrite vpass_is_g. now apply vpass_garbage_independent with (w := w). Qed.
+
+(* the model's primitive cube: entry (ax, ay, az) = Phi_0 of the product polynomial, with
+   beta m = (2 pi / p) exp(-mu |AB|^2) F_m(p |PC|^2) read from the oracle fields of K *)
+Theorem vrr_prim_entry L Ax Ay Az Bx By Bz Cx Cy Cz alpha beta ax ay az :
+  (forall x, fapx K x = x) -> (ax + ay + az <= L)%nat ->
+  let p := alpha + beta in
+  let Px := (alpha * Ax + beta * Bx) / p in
+  let Py := (alpha * Ay + beta * By) / p in
+  let Pz := (alpha * Az + beta * Bz) / p in
+  cget K (vrr_prim K L Ax Ay Az Bx By Bz Cx Cy Cz alpha beta) ax ay az
+  = Phi (boys_seq Ax Ay Az Bx By Bz Cx Cy Cz alpha beta) 0
+      (P3 (Px - Ax) (Px - Cx) (Py - Ay) (Py - Cy) (Pz - Az) (Pz - Cz) (1 / ((1 + 1) * p)) ax ay az).
+Proof. intros Hapx H. cbv zeta. rewrite vrr_prim_is_cube by exact Hapx. cbv zeta.
+  now apply vrr_cube_entry. Qed.
+
+(* one chain of the horizontal transfer as the binomial sum *)
+Theorem hiter_binomial L axis ab b n t x y z :
+  b <= n -> x <= L -> y <= L -> z <= L -> (idx_ax axis x y z + b <= L)%nat ->
+  cget K (nth b (hiter K L axis ab n t) []) x y z
+  = Hbin ab (fun i => cget_ax axis t i x y z) b (idx_ax axis x y z).
+Proof. intros. rewrite hiter_entry by assumption. apply Hf_binomial. Qed.
+
+(* Pascal coefficients are the binomial coefficients of FNum (scipy.special.comb) *)
+Section Binom.
+Hypothesis char0 : forall n, #(S n) <> 0.
+Notation ffact := (FNum.ffact K).
+Lemma ffact_nz n : ffact n <> 0.
+Proof. induction n as [|n IH]; cbn [FNum.ffact].
+  - intros H. apply (char0 0%nat). cbn [ofnat]. rewrite H. ring.
+  - intros H. apply IH. apply (mul_zero_r #(S n)); [apply char0|exact H]. Qed.
+Lemma pasc_fact b : forall k, k <= b -> pasc b k * (ffact k * ffact (b - k)) = ffact b.
+Proof.
+  induction b as [|b IH]; intros k Hk.
+  - assert (k = 0%nat) by lia. subst. cbn [pasc FNum.ffact Nat.sub]. ring.
+  - destruct k as [|k].
+    + rewrite pasc_0. cbn [FNum.ffact Nat.sub]. ring.
+    + rewrite pasc_SS. destruct (Nat.eq_dec k b) as [->|Hne].
+      * rewrite (pasc_gt b (S b)) by lia. pose proof (IH b ltac:(lia)) as E.
+        rewrite Nat.sub_diag in *. cbn [FNum.ffact] in *.
+        transitivity (#(S b) * (pasc b b * (ffact b * 1))); [cbn [ofnat]; ring|].
+        rewrite E. reflexivity.
+      * pose proof (IH k ltac:(lia)) as E1. pose proof (IH (S k) ltac:(lia)) as E2.
+        replace (S b - S k)%nat with (b - k)%nat by lia.
+        replace (b - k)%nat with (S (b - S k)) in * by lia.
+        cbn [FNum.ffact] in *.
+        assert (Hs : #(S b) = #(S k) + #(S (b - S k))).
+        { rewrite <- ofnat_add. f_equal. lia. }
+        rewrite Hs.
+        transitivity (#(S k) * (pasc b k * (ffact k * (#(S (b - S k)) * ffact (b - S k))))
+                      + #(S (b - S k)) * (pasc b (S k) * (#(S k) * ffact k * ffact (b - S k)))).
+        { ring. }
+        rewrite E1, E2. ring.
+Qed.
+Theorem pasc_fbinom b k : pasc b k = FNum.fbinom K b k.
+Proof.
+  unfold FNum.fbinom. destruct (Nat.leb_spec k b) as [Hle|Hgt].
+  - rewrite <- (pasc_fact b k Hle). field. split; apply ffact_nz.
+  - apply pasc_gt. exact Hgt.
+Qed.
+End Binom.
+
 End P.
+
+(* ------------------------------------------------------------------ *)
+(* the hypotheses hold at the executable instance                      *)
+(* ------------------------------------------------------------------ *)
+From Coq Require Import QArith Qcanon.
+Section QcInst.
+Variables (opi : Qc) (osqrt oexp oln : Qc -> Qc) (oboys : nat -> Qc -> Qc).
+Let KQ := QcK true opi osqrt oexp oln oboys.
+
+Lemma QcK_ofnat_nonneg n : (0 <= ofnat KQ n)%Qc.
+Proof.
+  induction n as [|n IH]; [apply Qcle_refl|].
+  cbn [ofnat]. change (fadd KQ) with qc_add. rewrite qc_add_eq.
+  change (0%Qc) with (0 + 0)%Qc. apply Qcplus_le_compat; [easy|exact IH].
+Qed.
+Lemma QcK_char0 n : ofnat KQ (S n) <> f0 KQ.
+Proof.
+  cbn [ofnat]. change (fadd KQ) with qc_add. rewrite qc_add_eq.
+  intros H. assert (Hlt : (0 < f1 KQ + ofnat KQ n)%Qc).
+  { apply Qclt_le_trans with (1 + 0)%Qc; [easy|].
+    apply Qcplus_le_compat; [apply Qcle_refl|apply QcK_ofnat_nonneg]. }
+  rewrite H in Hlt. now apply Qclt_not_eq in Hlt.
+Qed.
+
+(* a concrete pair of shells (p and d, off-axis centres) meeting every hypothesis of the block theorems *)
+Definition ex_sa : shell Qc :=
+  mkShell Qc 1 (Q2Qc 0) (Q2Qc (1#2)) (Q2Qc 0) [Q2Qc (3#2); Q2Qc (1#4)]
+          [[Q2Qc 1]; [Q2Qc (1#3)]] false [] [].
+Definition ex_sb : shell Qc :=
+  mkShell Qc 2 (Q2Qc 1) (Q2Qc 0) (Q2Qc (-1#3)) [Q2Qc (2#1)] [[Q2Qc 1]] false [] [].
+Lemma ex_hyps :
+  (0 < nseg ex_sa /\ 1 < length (comps_of ex_sa) /\ 0 < nseg ex_sb /\ 3 < length (comps_of ex_sb)
+  /\ csum3 (nth 1 (comps_of ex_sa) (0, 0, 0)) <= s_l ex_sa
+  /\ csum3 (nth 3 (comps_of ex_sb) (0, 0, 0)) <= s_l ex_sb)%nat.
+Proof. cbn. repeat split; lia. Qed.
+End QcInst.
